@@ -514,6 +514,10 @@ def load_average(
         # single-channel or multi-channel image. For multi-channel, it returns
         # noise_sd for each channel
         noise_sd = (std_image / mean_image).mean(['x', 'y', 'z'])
+        if noise_sd.ndim == 0:
+            # single channel: a plain number (a zero-dimensional DataArray
+            # in the metadata cannot be read back from a saved file)
+            noise_sd = float(noise_sd)
 
     # copy metadata from refimg
     if refimg is not None:
